@@ -1,11 +1,17 @@
 (* C10 — cache part: at every commit point the snapshot the cache maintained incrementally equalled a
-   compilation from scratch of the stored operations (the model side of this is theorem C10_incremental). *)
+   compilation from scratch of the stored operations (the model side of this is theorem C10_incremental);
+   k_resolve: on a REOPENED cache, before anything else touched the bug, every question
+   ResolveOperationWithMetadata(key, value) got the answer read off a from-scratch compile of the stored
+   operations (the metadata of an operation is a function of the operation sequence, not of whether this
+   object has been compiled yet). *)
 From Coq Require Import List Bool.
 Import ListNotations.
 
-Record case := mkcase10c { k_equal : list bool }.
+Record case := mkcase10c { k_equal : list bool; k_resolve : list bool }.
 Definition agrees (c : case) : bool := true.
-Definition C10c_ok (c : case) : bool := forallb (fun b => b) (k_equal c) && negb (match k_equal c with [] => true | _ => false end).
+Definition C10c_ok (c : case) : bool :=
+  forallb (fun b => b) (k_equal c) && negb (match k_equal c with [] => true | _ => false end) &&
+  forallb (fun b => b) (k_resolve c) && negb (match k_resolve c with [] => true | _ => false end).
 Fixpoint index_filter {A} (f : A -> bool) (i : nat) (l : list A) : list nat :=
   match l with [] => [] | x :: t => if f x then index_filter f (S i) t else i :: index_filter f (S i) t end.
 Definition mismatches (cs : list case) : list nat := index_filter agrees 0 cs.
